@@ -3576,7 +3576,7 @@ class __implementations__:
         else:
             axis = numeric.normdim(array.ndim, axis)
         length = array.shape[axis]
-        indices = util.deep_reduce(numpy.stack, indices)
+        indices = util.deep_reduce(lambda items: numpy.stack(items) if len(items) else numpy.empty(0, dtype=int), indices)
         if isinstance(indices, Array):
             indices = _Wrapper.broadcasted_arrays(evaluable.NormDim, length, indices)
         else:
